@@ -1,0 +1,118 @@
+//go:build verif
+
+// Contracts for govc (see /verif/DESIGN.md). Comment-only file: no executable code.
+
+package containerdb
+
+// ---------------------------------------------------------------------------
+// C21: container keys are sequences of length-prefixed (RLP string) parts
+// ---------------------------------------------------------------------------
+
+//@ property C21
+// number of bytes of the minimal big-endian form of a non-negative size
+//@ func rlpCountBytesForSize(b) (cnt)
+//@   arith bv
+//@   pure
+//@   requires b >= 0
+//@   ensures [range] 1 <= cnt && cnt <= 8
+//@   ensures [fits] cnt == 8 || uint64(b) < (uint64(1) << uint64(8 * cnt))
+//@   ensures [minimal] cnt == 1 || uint64(b) >= (uint64(1) << uint64(8 * (cnt - 1)))
+//@   loop 0: unroll 8
+
+// rlpEncodeBytes: a single byte below 0x80 is its own encoding (the argument is returned), up to 55
+// bytes get the tag 0x80+len, longer strings the tag 0xB7+k and the minimal k-byte big-endian length;
+// the payload follows verbatim.
+//@ spec encSingle(b) = len(b) == 1 && b[0] < 0x80
+//@ func rlpEncodeBytes(b) (r)
+//@   arith bv
+//@   pure
+//@   requires len(b) < 0x1000000000000000
+//@   ensures [single] encSingle(b) ==> r == b
+//@   ensures [short] !encSingle(b) && len(b) <= 55 ==> fresh(r) && len(r) == len(b) + 1 && r[0] == byte(0x80 + len(b)) && (forall i int :: {b[i]} 0 <= i && i < len(b) ==> r[1 + i] == b[i])
+//@   ensures [long] len(b) > 55 ==> fresh(r) && r[0] >= 0xb8 && r[0] <= 0xbf && len(r) == 1 + int(r[0] - 0xb7) + len(b)
+//@   ensures [longsize] len(b) > 55 ==> dec_u64(arr(r), off(r) + 1, int(r[0] - 0xb7)) == uint64(len(b)) && r[1] != 0
+//@   ensures [longdata] len(b) > 55 ==> (forall i int :: {b[i]} 0 <= i && i < len(b) ==> r[1 + int(r[0] - 0xb7) + i] == b[i])
+//@   loop 0: unroll 8
+
+// rlpReadSize: the k-byte big-endian size field of a long string; accepted only when minimal
+// (no leading zero, value above 55) and k is 1..8.
+//@ func rlpReadSize(b, slen) (s, err)
+//@   arith bv
+//@   pure
+//@   ensures [value] err == nil ==> 1 <= slen && slen <= 8 && slen <= len(b) && uint64(s) == dec_u64(arr(b), off(b), slen) && s >= 56 && b[0] != 0
+//@   ensures [complete] 1 <= slen && slen <= 8 && slen <= len(b) && b[0] != 0 && dec_u64(arr(b), off(b), slen) >= 56 && dec_u64(arr(b), off(b), slen) <= 0x7fffffffffffffff ==> err == nil
+
+// rlpParseBytes splits the first string item off a key: the part and the remainder are windows of
+// the input that follow each other without gap.
+//@ func rlpParseBytes(bs) (part, rest, err)
+//@   arith bv
+//@   opt nomerge
+//@   pure
+//@   ensures [single] err == nil && bs[0] < 0x80 ==> len(part) == 1 && part[0] == bs[0] && ref(rest) == ref(bs) && off(rest) == off(bs) + 1 && len(rest) == len(bs) - 1
+//@   ensures [short] err == nil && bs[0] >= 0x80 && bs[0] < 0xb8 ==> ref(part) == ref(bs) && off(part) == off(bs) + 1 && len(part) == int(bs[0] - 0x80) && ref(rest) == ref(bs) && off(rest) == off(part) + len(part) && len(rest) == len(bs) - 1 - len(part)
+//@   ensures [long] err == nil && bs[0] >= 0xb8 ==> bs[0] < 0xc0 && ref(part) == ref(bs) && off(part) == off(bs) + 1 + int(bs[0] - 0xb7) && uint64(len(part)) == dec_u64(arr(bs), off(bs) + 1, int(bs[0] - 0xb7)) && len(part) >= 56 && bs[1] != 0 && ref(rest) == ref(bs) && off(rest) == off(part) + len(part) && len(rest) == len(bs) - 1 - int(bs[0] - 0xb7) - len(part)
+//@   ensures [nonempty] err == nil ==> len(bs) > 0 && len(rest) >= 0 && len(rest) < len(bs)
+//@   ensures [accept_single] len(bs) > 0 && bs[0] < 0x80 ==> err == nil
+//@   ensures [accept_short] len(bs) > 0 && bs[0] >= 0x80 && bs[0] < 0xb8 && len(bs) - 1 >= int(bs[0] - 0x80) ==> err == nil
+//@   ensures [accept_long] len(bs) > 1 && bs[0] >= 0xb8 && bs[0] < 0xc0 && len(bs) - 1 >= int(bs[0] - 0xb7) && bs[1] != 0 && dec_u64(arr(bs), off(bs) + 1, int(bs[0] - 0xb7)) >= 56 && dec_u64(arr(bs), off(bs) + 1, int(bs[0] - 0xb7)) <= uint64(len(bs) - 1 - int(bs[0] - 0xb7)) ==> err == nil
+
+// AppendKeys returns a freshly allocated key that starts with the given prefix (the prefix buffer is
+// never written or shared, so sibling builders derived from one parent cannot disturb each other).
+//@ func ToBytes(v) (bs)
+//@   trusted
+//@   pure
+//@   ensures len(bs) < 0x100000000
+//@ func AppendKeys(key, keys) (r)
+//@   arith bv
+//@   pure
+//@   requires len(key) < 0x1000000000000000 && len(keys) < 0x100000
+//@   ensures [fresh] fresh(r) && ref(r) != ref(key)
+//@   ensures [prefix] len(r) >= len(key) && (forall i int :: {r[i]} 0 <= i && i < len(key) ==> r[i] == key[i])
+//@   loop 0: invariant -1 <= rangeindex && rangeindex < len(keys) && len(list) == len(keys) && fresh(list) && size >= len(key) && size <= len(key) + (rangeindex + 1) * 0x200000000
+//@   loop 1: invariant -1 <= rangeindex && rangeindex < len(list) && fresh(kbytes) && ref(kbytes) != ref(key) && len(kbytes) >= len(key) && (forall i int :: {kbytes[i]} 0 <= i && i < len(key) ==> kbytes[i] == key[i])
+
+//@ func (b KeyBuilder) Append(keys) (r)
+//@   iface
+//@   trusted
+//@   pure
+//@   ensures r != nil
+// A sub-dictionary view keeps the store and has the depth that is left after the given keys.
+//@ func (d *DictDB) GetDB(keys) (r)
+//@   arith bv
+//@   pure
+//@   requires d != nil && d.key != nil
+//@   ensures [none] r == nil <==> len(keys) >= d.depth
+//@   ensures [depth] r != nil ==> r.depth == d.depth - len(keys) && r.store == d.store && fresh(r)
+
+// Dictionary access reaches the store only with exactly `depth` keys appended to the dictionary's key.
+//@ func (s StoreState) GetValue(key) (v)
+//@   iface
+//@   trusted
+//@   pure
+//@ func (s StoreState) At(key) (v)
+//@   iface
+//@   trusted
+//@   pure
+//@   ensures v != nil
+//@ func (b KeyBuilder) Build() (r)
+//@   iface
+//@   trusted
+//@   pure
+//@ func (d *DictDB) Get(keys) (r)
+//@   arith bv
+//@   pure
+//@   requires d != nil && d.key != nil && d.store != nil
+//@   callpre Append: len(keys) == d.depth
+//@   ensures [guard] len(keys) != d.depth ==> r == nil
+//@ func (d *DictDB) Delete(kv) (err)
+//@   arith bv
+//@   nosafety
+//@   noframe
+//@   requires d != nil && d.key != nil && d.store != nil
+//@   callpre Append: len(keys) == d.depth
+
+// SplitKeys consumes the key part by part (each step strictly shortens the remainder) and never panics.
+//@ func SplitKeys(key) (keys, err)
+//@   arith bv
+//@   pure
+//@   loop 0: invariant len(key) >= 0 && (ref(keys) == 0 || fresh(keys))
